@@ -288,25 +288,3 @@ Section PP.
   Qed.
 End PP.
 
-(* ---- finding F1: the formula as written in mixture.py violates Gibbs-Duhem ---- *)
-From Interval Require Import Tactic.
-
-Definition wit_u : UQParams ROps := Build_UQParams ROps (ln 2) (- ln 2) 0 0 10.
-Definition wit_k : UQConst ROps := Build_UQConst ROps 1 1 1.
-
-Lemma uniquac_asis_GD_refuted :
-  (1/2) * Derive (fun y => ln (fst (uniquac_gamma_gen ROps false wit_u wit_k wit_k 1 y (1 - y)))) (1/2)
-  + (1 - 1/2) * Derive (fun y => ln (snd (uniquac_gamma_gen ROps false wit_u wit_k wit_k 1 y (1 - y)))) (1/2) > 1/10.
-Proof.
-  rewrite (Derive_ext _ (ulng1 1 1 1 1 1 1 10 (uq_t12 wit_u 1) (uq_t21 wit_u 1)))
-    by (intros y; rewrite uniquac_gamma_R; cbn [fst]; apply ln_exp).
-  rewrite (Derive_ext (fun y => ln (snd _)) (ulng2 1 1 1 1 1 1 10 (uq_t12 wit_u 1) (uq_t21 wit_u 1) false))
-    by (intros y; rewrite uniquac_gamma_R; cbn [snd]; apply ln_exp).
-  unfold uq_t12, uq_t21, wit_u. cbn [ualpha12 ualpha21 ubeta12 ubeta21].
-  evar (l1 : R). assert (H1 : is_derive (ulng1 1 1 1 1 1 1 10 (exp (- (ln 2 + 0 / 1) / 1)) (exp (- (- ln 2 + 0 / 1) / 1))) (1/2) l1).
-  { unfold ulng1, ul. auto_derive; [ repeat split; try exact I; try (apply Rgt_not_eq); interval | unfold l1; reflexivity ]. }
-  evar (l2 : R). assert (H2 : is_derive (ulng2 1 1 1 1 1 1 10 (exp (- (ln 2 + 0 / 1) / 1)) (exp (- (- ln 2 + 0 / 1) / 1)) false) (1/2) l2).
-  { unfold ulng2, ubracket, ul. auto_derive; [ repeat split; try exact I; try (apply Rgt_not_eq); interval | unfold l2; reflexivity ]. }
-  rewrite (is_derive_unique _ _ _ H1), (is_derive_unique _ _ _ H2). unfold l1, l2.
-  interval.
-Qed.
